@@ -41,8 +41,9 @@ ASSUMPTIONS = [
     'reference ranges: cowat = IFC-67 region 1 (0.01..350 degC, sat(t)..100 MPa); supst = the range its own bounds logic encodes, which is '
     'how TOUGH2 uses it (0.01..800 degC, 0 < p <= sat(t) to 374.15 degC, <= the L-function boundary b23p(t) from 374.15 '
     'to 590 degC, <= 100 MPa above; the documentation\'s "region 2" is loose wording - owner\'s ruling); sat = 0.01..374.15 '
-    'degC; tsat = sat(0.01)..22.12 MPa (doc/source/t2thermo.rst).  The curves themselves are the library\'s sat / b23p; '
-    'exactly on a curve either answer is accepted',
+    'degC; tsat = sat(0.01)..22.12 MPa (doc/source/t2thermo.rst).  The curves are t2thermo\'s own sat / b23p values at that t '
+    '(bit for bit what the routine compares with) and every limit is closed: exactly on a curve, at 100 MPa and at the '
+    'end points of sat / tsat the state is inside',
     'where two nominally coincident limits differ by rounding of printed coefficients either answer is accepted between '
     'them: b23p(590) vs 100 MPa, the printed 374.15 vs the '
     'computed 647.3 - 273.15',
